@@ -282,3 +282,83 @@ Fixpoint descrs_eqb (a b : list bdescr) : bool :=
 Definition bdescr_eq (a b : bdescr) : Prop :=
   match fst a, fst b with Some x, Some y => x == y | None, None => True | _, _ => False end /\
   match snd a, snd b with Some x, Some y => x == y | None, None => True | _, _ => False end.
+
+(* ------------------------------------------------------------------------------------------ *)
+(* Part 3: a bin description as a map (value.bin is a MapStorage) and the map observers on it     *)
+(* ------------------------------------------------------------------------------------------ *)
+
+(* type bin struct { IsMin bool; Min float64; IsMax bool; Max float64 }: the Go zero value 0 stays in
+   Min/Max when the bound does not exist *)
+Record bin := mkBin { b_ismin : bool; b_min : Q; b_ismax : bool; b_max : Q }.
+
+(* func (a *axis) getDescr(i int) bin, as the record the code builds *)
+Definition get_bin (a : axis) (i : Z) : bin :=
+  let to := a_start a + inject_Z i * a_size a in
+  let from := to - a_size a in
+  if (i =? 0)%Z then mkBin false 0 true to
+  else if (i =? a_bins a - 1)%Z then mkBin true from false 0
+  else mkBin true from true to.
+
+Definition descr_of_bin (b : bin) : bdescr :=
+  (if b_ismin b then Some (b_min b) else None, if b_ismax b then Some (b_max b) else None).
+
+(* the keys the observers are asked about, and the values a bin map holds (the text of str is not modelled) *)
+Inductive bkey := KStr | KMin | KMax | KOther.
+Inductive bval := BStr | BNum (q : Q).
+
+Definition bkey_eqb (a b : bkey) : bool :=
+  match a, b with KStr, KStr | KMin, KMin | KMax, KMax | KOther, KOther => true | _, _ => false end.
+
+Definition bval_eqb (a b : bval) : bool :=
+  match a, b with BStr, BStr => true | BNum x, BNum y => Qeq_bool x y | _, _ => false end.
+
+(* func (b bin) Get(key string) (Value, bool): the value (None = Go nil) and the ok flag; for an absent
+   bound the code returns the non-nil Float(0) together with false *)
+Definition bin_get (b : bin) (k : bkey) : option bval * bool :=
+  match k with
+  | KStr => (Some BStr, true)
+  | KMin => (Some (BNum (b_min b)), b_ismin b)
+  | KMax => (Some (BNum (b_max b)), b_ismax b)
+  | KOther => (None, false)
+  end.
+
+(* func (b bin) Iter: str, then min if IsMin, then max if IsMax *)
+Definition bin_iter (b : bin) : list (bkey * bval) :=
+  (KStr, BStr) :: (if b_ismin b then [(KMin, BNum (b_min b))] else [])
+               ++ (if b_ismax b then [(KMax, BNum (b_max b))] else []).
+
+(* func (b bin) Size *)
+Definition bin_size (b : bin) : N :=
+  (1 + (if b_ismin b then 1 else 0) + (if b_ismax b then 1 else 0))%N.
+
+(* Map.IsAvail(keys...): every key must have the ok flag of MapStorage.Get *)
+Definition map_is_avail (b : bin) (ks : list bkey) : bool := forallb (fun k => snd (bin_get b k)) ks.
+
+(* Map.GetM (method get), member access d.min and Map.Get: the value when the ok flag is set, else an error *)
+Definition map_get (b : bin) (k : bkey) : option bval :=
+  if snd (bin_get b k) then fst (bin_get b k) else None.
+
+(* "key" ~ d is Map.ContainsKey: the ok flag *)
+Definition map_contains (b : bin) (k : bkey) : bool := snd (bin_get b k).
+
+(* Map.Equals(d, other) where other is a plain key/value list: equal sizes, and every entry that Iter yields
+   is found in other with an equal value *)
+Fixpoint kv_get (l : list (bkey * bval)) (k : bkey) : option bval :=
+  match l with
+  | [] => None
+  | (k', v) :: r => if bkey_eqb k k' then Some v else kv_get r k
+  end.
+
+Definition bin_equals_kv (b : bin) (other : list (bkey * bval)) : bool :=
+  N.eqb (bin_size b) (N.of_nat (length other)) &&
+  forallb (fun kv => match kv_get other (fst kv) with Some v => bval_eqb v (snd kv) | None => false end) (bin_iter b).
+
+(* d = d *)
+Definition bin_equals_self (b : bin) : bool :=
+  forallb (fun kv => match map_get b (fst kv) with Some v => bval_eqb v (snd kv) | None => false end) (bin_iter b).
+
+(* what the specification says bin i of the grid is, as a key/value list: str always, min unless i = 0,
+   max unless i = count+1 *)
+Definition spec_kv (a : axis) (i : Z) : list (bkey * bval) :=
+  (KStr, BStr) :: (if (i =? 0)%Z then [] else [(KMin, BNum (edge a (i - 1)))])
+               ++ (if (i =? count_of a + 1)%Z then [] else [(KMax, BNum (edge a i))]).
